@@ -1,0 +1,54 @@
+// Copyright 2023 StreamNative, Inc.
+//
+// Licensed under the Apache License, Version 2.0 (the "License");
+// you may not use this file except in compliance with the License.
+// You may obtain a copy of the License at
+//
+//     http://www.apache.org/licenses/LICENSE-2.0
+//
+// Unless required by applicable law or agreed to in writing, software
+// distributed under the License is distributed on an "AS IS" BASIS,
+// WITHOUT WARRANTIES OR CONDITIONS OF ANY KIND, either express or implied.
+// See the License for the specific language governing permissions and
+// limitations under the License.
+
+//go:build verif
+
+package internal
+
+import (
+	"context"
+	"log/slog"
+
+	"github.com/pkg/errors"
+
+	"github.com/oxia-db/oxia/common/concurrent"
+	"github.com/oxia-db/oxia/proto"
+)
+
+// VerifNewShardManager builds the client's shard manager (with the real shard strategy) without
+// connecting it to a server. The returned function applies one shard-assignments message the way
+// the receive loop does (namespace lookup, conversion, update). Build tag verif only.
+func VerifNewShardManager(namespace string) (ShardManager, func(*proto.ShardAssignments) error) {
+	sm := &shardManagerImpl{
+		namespace:     namespace,
+		shardStrategy: NewShardStrategy(),
+		shards:        make(map[int64]Shard),
+		logger:        slog.With(slog.String("component", "shardManager")),
+	}
+	sm.updatedWg = concurrent.NewWaitGroup(1)
+	sm.ctx, sm.cancel = context.WithCancel(context.Background())
+	apply := func(response *proto.ShardAssignments) error {
+		assignments, ok := response.Namespaces[sm.namespace]
+		if !ok {
+			return errors.New("namespace not found in shards assignments")
+		}
+		shards := make([]Shard, len(assignments.Assignments))
+		for i, assignment := range assignments.Assignments {
+			shards[i] = toShard(assignment)
+		}
+		sm.update(shards)
+		return nil
+	}
+	return sm, apply
+}
